@@ -156,7 +156,11 @@ def op_forms_light():
     from .nlsym import skeletons as sk
     keep = ("lit-local", "local-lit", "lit-global", "global-lit", "local-local", "neglocal-lit", "lit-neglocal")
     cheap = ("add", "sub", "lt", "lte", "gt", "gte", "eq", "neq")
-    return [x for x in sk.fam_operator_forms() if len(x[0].split(":")) == 3 and x[0].split(":")[1] in keep and x[0].split(":")[2] in cheap]
+    out = [x for x in sk.fam_operator_forms() if len(x[0].split(":")) == 3 and x[0].split(":")[1] in keep and x[0].split(":")[2] in cheap]
+    # division and remainder of a (negated) local by a literal and the other way round: 8 skeletons, about 40 s
+    out += [x for x in sk.fam_operator_forms() if len(x[0].split(":")) == 3 and x[0].split(":")[1] in ("lit-local", "local-lit", "neglocal-lit", "lit-neglocal")
+            and x[0].split(":")[2] in ("div", "rem")]
+    return out
 
 
 def rnd(seed, n):
@@ -341,7 +345,8 @@ PROPS = {
                       lambda seed: fams("sequences", "compose", "gc") + rnd(seed, 200), k=True),
     "C14": s_property("C14", "model_checking",
                       lambda seed: fams("builtins") + [x for x in fams("boundary") if "int-of" in x[0] or "float-of" in x[0] or "builtin" in x[0] or "string-of" in x[0] or "bool-of" in x[0]]
-                      + [x for x in fams("compose") if "print" in x[0] or "builtins" in x[0] or "float-int" in x[0]],
+                      + [x for x in fams("compose") if "print" in x[0] or "builtins" in x[0] or "float-int" in x[0]]
+                      + [x for x in fams("sequences") if "str-len" in x[0] or "str-set-multi" in x[0] or "str-set-empty" in x[0] or "str-eq-after-set-len" in x[0]],
                       lambda seed: fams("builtins", "boundary", "compose"), k=True,
                       extra_assume=["outside the claim: float <-> text (Grisu / dec2flt on symbolic input), print's substitution on symbolic TEXT, text -> number on symbolic text; "
                                     "these are exercised on concrete literals by Engine S only"]),
@@ -353,6 +358,6 @@ PROPS = {
                       lambda seed: sessions(3, seed, 200, 4),
                       lambda seed: sessions(3, seed, 3000, 6), k=True, kinds=("session",)),
     "C06": s_property("C06", "model_checking",
-                      lambda seed: fams("operator_forms") + [x for x in fams("boundary") if "nan" in x[0] or "inf-" in x[0] or "float-div" in x[0]],
-                      lambda seed: fams("operator_forms") + [x for x in fams("boundary") if "nan" in x[0] or "inf-" in x[0] or "float-div" in x[0]], k=True),
+                      lambda seed: fams("operator_forms") + [x for x in fams("boundary") if "nan" in x[0] or "inf-" in x[0] or "float-div" in x[0] or "signed-zero" in x[0] or "literals" in x[0]],
+                      lambda seed: fams("operator_forms") + [x for x in fams("boundary") if "nan" in x[0] or "inf-" in x[0] or "float-div" in x[0] or "signed-zero" in x[0] or "literals" in x[0]], k=True),
 }
